@@ -177,3 +177,69 @@ Proof. repeat split; lin. Qed.
 
 Theorem bw_linear_pown x y gy k : bw_pown x y gy k = gy * bw_pown x y 1 k.
 Proof. lin. Qed.
+
+(* ---- Grouped statements (one per family; used by Props/Properties_C01_scalar.v) ---- *)
+Theorem d_unary_all x :
+  (is_derive fw_exp x (bw_exp x (fw_exp x) 1)) /\
+  (0 < x -> is_derive fw_log x (bw_log x (fw_log x) 1)) /\
+  (0 < x -> is_derive fw_sqrt x (bw_sqrt x (fw_sqrt x) 1)) /\
+  (is_derive fw_sin x (bw_sin x (fw_sin x) 1)) /\
+  (is_derive fw_cos x (bw_cos x (fw_cos x) 1)) /\
+  (cos x <> 0 -> is_derive fw_tan x (bw_tan x (fw_tan x) 1)) /\
+  (is_derive fw_tanh x (bw_tanh x (fw_tanh x) 1)) /\
+  (x <> 0 -> is_derive fw_abs x (bw_abs x (fw_abs x) 1)) /\
+  (is_derive fw_sigmoid x (bw_sigmoid x (fw_sigmoid x) 1)) /\
+  (is_derive fw_softplus x (bw_softplus x (fw_softplus x) 1)).
+Proof. exact (conj (d_exp x) (conj (d_log x) (conj (d_sqrt x) (conj (d_sin x) (conj (d_cos x) (conj (d_tan x) (conj (d_tanh x) (conj (d_abs x) (conj (d_sigmoid x) (d_softplus x)))))))))). Qed.
+
+Theorem d_const_all x k :
+  (is_derive (fun x => fw_add_const x k) x (bw_add_const x (fw_add_const x k) 1 k)) /\
+  (is_derive (fun x => fw_subtract_const_r x k) x (bw_subtract_const_r x (fw_subtract_const_r x k) 1 k)) /\
+  (is_derive (fun x => fw_subtract_const_l x k) x (bw_subtract_const_l x (fw_subtract_const_l x k) 1 k)) /\
+  (is_derive (fun x => fw_multiply_const x k) x (bw_multiply_const x (fw_multiply_const x k) 1 k)) /\
+  (k <> 0 -> is_derive (fun x => fw_divide_const_r x k) x (bw_divide_const_r x (fw_divide_const_r x k) 1 k)) /\
+  (x <> 0 -> is_derive (fun x => fw_divide_const_l x k) x (bw_divide_const_l x (fw_divide_const_l x k) 1 k)) /\
+  (0 < x -> is_derive (fun x => fw_pow_const_r x k) x (bw_pow_const_r x (fw_pow_const_r x k) 1 k)) /\
+  (0 < k -> is_derive (fun x => fw_pow_const_l x k) x (bw_pow_const_l x (fw_pow_const_l x k) 1 k)) /\
+  (x <> 0 -> is_derive (fun x => fw_prelu x k) x (bw_prelu x (fw_prelu x k) 1 k)) /\
+  (x <> 0 -> is_derive (fun x => fw_elu x k) x (bw_elu x (fw_elu x k) 1 k)).
+Proof. exact (conj (d_add_const x k) (conj (d_subtract_const_r x k) (conj (d_subtract_const_l x k) (conj (d_multiply_const x k) (conj (d_divide_const_r x k) (conj (d_divide_const_l x k) (conj (d_pow_const_r x k) (conj (d_pow_const_l x k) (conj (d_prelu x k) (d_elu x k)))))))))). Qed.
+
+Theorem d_relu_lrelu_selu_all x a s :
+  (x <> 0 -> is_derive (fun x => fw_prelu x 0) x (bw_prelu x (fw_prelu x 0) 1 0)) /\
+  (x <> 0 -> is_derive (fun x => fw_prelu x (1 / 100)) x (bw_prelu x (fw_prelu x (1 / 100)) 1 (1 / 100))) /\
+  (x <> 0 -> is_derive (fun x => fw_multiply_const (fw_elu x a) s) x
+     (bw_elu x (fw_elu x a) (bw_multiply_const (fw_elu x a) (fw_multiply_const (fw_elu x a) s) 1 s) a)).
+Proof. exact (conj (d_relu x) (conj (d_lrelu x) (d_selu x a s))). Qed.
+
+Theorem d_binary_all a b :
+  (is_derive (fun a => fw_add a b) a (bw_add_a a b (fw_add a b) 1)) /\
+  (is_derive (fun b => fw_add a b) b (bw_add_b a b (fw_add a b) 1)) /\
+  (is_derive (fun a => fw_subtract a b) a (bw_subtract_a a b (fw_subtract a b) 1)) /\
+  (is_derive (fun b => fw_subtract a b) b (bw_subtract_b a b (fw_subtract a b) 1)) /\
+  (is_derive (fun a => fw_multiply a b) a (bw_multiply_a a b (fw_multiply a b) 1)) /\
+  (is_derive (fun b => fw_multiply a b) b (bw_multiply_b a b (fw_multiply a b) 1)) /\
+  (b <> 0 -> is_derive (fun a => fw_divide a b) a (bw_divide_a a b (fw_divide a b) 1)) /\
+  (b <> 0 -> is_derive (fun b => fw_divide a b) b (bw_divide_b a b (fw_divide a b) 1)) /\
+  (0 < a -> is_derive (fun a => fw_pow a b) a (bw_pow_a a b (fw_pow a b) 1)) /\
+  (0 < a -> is_derive (fun b => fw_pow a b) b (bw_pow_b a b (fw_pow a b) 1)).
+Proof. exact (conj (d_add_a a b) (conj (d_add_b a b) (conj (d_subtract_a a b) (conj (d_subtract_b a b) (conj (d_multiply_a a b) (conj (d_multiply_b a b) (conj (d_divide_a a b) (conj (d_divide_b a b) (conj (d_pow_a a b) (d_pow_b a b)))))))))). Qed.
+
+Theorem bw_linear_all x y gy k a b :
+  (bw_abs x y gy = gy * bw_abs x y 1 /\ bw_exp x y gy = gy * bw_exp x y 1 /\ bw_log x y gy = gy * bw_log x y 1 /\
+   bw_sin x y gy = gy * bw_sin x y 1 /\ bw_cos x y gy = gy * bw_cos x y 1 /\ bw_tan x y gy = gy * bw_tan x y 1 /\
+   bw_tanh x y gy = gy * bw_tanh x y 1 /\ bw_sqrt x y gy = gy * bw_sqrt x y 1 /\
+   bw_sigmoid x y gy = gy * bw_sigmoid x y 1 /\ bw_softplus x y gy = gy * bw_softplus x y 1) /\
+  (bw_add_const x y gy k = gy * bw_add_const x y 1 k /\ bw_subtract_const_r x y gy k = gy * bw_subtract_const_r x y 1 k /\
+   bw_subtract_const_l x y gy k = gy * bw_subtract_const_l x y 1 k /\ bw_multiply_const x y gy k = gy * bw_multiply_const x y 1 k /\
+   bw_divide_const_r x y gy k = gy * bw_divide_const_r x y 1 k /\ bw_divide_const_l x y gy k = gy * bw_divide_const_l x y 1 k /\
+   bw_pow_const_r x y gy k = gy * bw_pow_const_r x y 1 k /\ bw_pow_const_l x y gy k = gy * bw_pow_const_l x y 1 k /\
+   bw_prelu x y gy k = gy * bw_prelu x y 1 k /\ bw_elu x y gy k = gy * bw_elu x y 1 k) /\
+  (bw_add_a a b y gy = gy * bw_add_a a b y 1 /\ bw_add_b a b y gy = gy * bw_add_b a b y 1 /\
+   bw_subtract_a a b y gy = gy * bw_subtract_a a b y 1 /\ bw_subtract_b a b y gy = gy * bw_subtract_b a b y 1 /\
+   bw_multiply_a a b y gy = gy * bw_multiply_a a b y 1 /\ bw_multiply_b a b y gy = gy * bw_multiply_b a b y 1 /\
+   bw_divide_a a b y gy = gy * bw_divide_a a b y 1 /\ bw_divide_b a b y gy = gy * bw_divide_b a b y 1 /\
+   bw_pow_a a b y gy = gy * bw_pow_a a b y 1 /\ bw_pow_b a b y gy = gy * bw_pow_b a b y 1).
+Proof.
+  exact (conj (bw_linear_unary x y gy) (conj (bw_linear_const x y gy k) (bw_linear_binary a b y gy))).
+Qed.
